@@ -936,7 +936,8 @@ fn gen_fill(rng: &mut Rng, node: &mut Node, depth: usize, budget: &mut usize, ma
         _ => rng.range(1, (*budget).min(8) as u64) as usize,
     };
     let class = if rng.chance(1, 4) { NameClass::Ascii } else { NameClass::Agreed };
-    let names = gen_pool(rng, class, want);
+    // (another writer's names: no embedded NUL - this writer refuses them, see check_name)
+    let names: Vec<String> = gen_pool(rng, class, want).into_iter().filter(|n| !n.contains('\0')).collect();
     *budget -= names.len();
     for name in names {
         let child = if depth < 5 && rng.chance(1, 4) {
